@@ -175,8 +175,8 @@ func vc12CoqCase(in *c12h.Input, r *c12h.Result) (string, bool) {
 
 func TestVerif_C12(t *testing.T) {
 	c12h.Run(t, &c12h.Part{
-		Name: "linkedlog",
-		Rule: "linkedlog.ReadWithSize / Read on mutated log files and inconsistent (offset,size) pairs: no panic, allocation <= 64*len + 14 MiB (12 MiB of it is NewLinkedLog's write buffer), no hang; class = Coq model",
+		Name:  "linkedlog",
+		Rule:  "linkedlog.ReadWithSize / Read on mutated log files and inconsistent (offset,size) pairs: no panic, allocation <= 64*len + 14 MiB (12 MiB of it is NewLinkedLog's write buffer), no hang; class = Coq model",
 		Seeds: vc12Seeds, Gen: vc12Gen, Exec: vc12Exec, Budget: vc12Budget,
 		Witnesses: func(seeds []c12h.Seed) map[string]c12h.Input {
 			s := &seeds[0]
